@@ -439,6 +439,9 @@ def fam_ro(prop, kset, n_prog, n_ops, salt=0):
                 poke = [[512 + 492, [255, 255, 255, 255]]]  # FSInfo next-free hint unknown
             elif variant == 4:
                 poke = [[status_off(kname), [rng.choice([1, 2, 3, 0x80, 0xF0, 0x41, 0x04])]]]  # dirty / io-error / other bits set by someone else
+            elif i % 12 == 5 and kname[:2] in ("K3", "K4", "K5"):
+                # the clean-shutdown / no-error bits other implementations keep in table entry 1, cleared by someone else
+                poke = [{"fat1_and": rng.choice([0xF7FFFFFF, 0xFBFFFFFF, 0xF3FFFFFF] if kname.startswith("K5") else [0x7FFF, 0xBFFF, 0x3FFF])}]
             progs.append(gen.ro_program(rng, "ro-%s-%d" % (kname, i), cfg, CS[kname], n_ops, end_setup=end_setup, poke=poke,
                                         end=rng.choice(["unmount", "dropfs"]), no_stats=(i % 12 >= 6)))
     return progs
@@ -625,6 +628,8 @@ def c16():
                 n += 1
                 progs.append(gen.alias_program(rng, "alias-%s-%d" % (kname, n), cfg, names))
     res = [("alias", core.campaign("alias", progs, wd, n_shards=14))]
+    moves = [gen.alias_move_program(rng, "alias-move-%s-%d" % (k, i), gen.K(k), n=rng.choice([4, 8, 12])) for k in ("K2", "K3", "K5") for i in range(scale(6, 60))]
+    res.append(("alias-move", core.campaign("alias-move", moves, wd)))
     core.finish("C16", LEVEL, res, None, t0,
                 "directories populated with names colliding on the 6-character alias form, on the 2-character+checksum form (names searched for equal 16-bit "
                 "name checksum), user names that look like aliases, non-ASCII and dotted/spaced names, with removals in between; for every created entry TLC "
@@ -813,6 +818,16 @@ def c19():
     # non-ASCII histories on the ASCII-folding build must be explained by the same specification with Fold = AsciiUpper
     uni2 = [dict(p, cfg={k: v for k, v in p["cfg"].items() if k not in ("obs", "digest")}) for p in uni_progs]
     res.append(("fold-param", core.campaign("fold-param", uni2, wd, feat="nounicode")))
+    # directories only another writer or a power cut produces (orphaned beginnings of long-name runs in front of complete runs, runs of
+    # every length with and without terminator): every build must decode them as the one specification says, hence alike
+    dirs = gen.orphan_cases(rng, quick=(core.tier() == "quick"))
+    for n in range(1, 21):
+        for ln in (n * 13, n * 13 - 1):
+            dirs.append(gen.lfn_run_slots([ord("A") + (k % 26) for k in range(ln)], gen._chk([ord(c) for c in "TARGET  TXT"]))
+                        + [gen.sfn_slot([ord(c) for c in "TARGET  TXT"])])
+    specs = [{"id": "f-dirs-%d" % (i // 100), "base": gen.K("K3")["vol"], "dirs": dirs[i:i + 100]} for i in range(0, len(dirs), 100)]
+    for feat in ("noalloc", "nounicode"):
+        res.append(("dirs-" + feat, core.campaign("dirs-" + feat, specs, wd, feat=feat, spec="TraceDirDecode", mode="dirs")))
     programs = sum(r.programs for _, r in res)
     disagreements = sum(len(r.viol) for _, r in res)
     core.finish("C19", "translation_validation", res, None, t0,
@@ -822,7 +837,7 @@ def c19():
                 "ASCII-folding build are validated by TraceFatFs instantiated with Fold = AsciiUpper",
                 ["image digest = FNV-1a over all non-zero 4 KiB blocks", "fields only one build can produce (String-returning accessors) are not compared"],
                 extra_cov={"programs": programs, "disagreements_checked": disagreements},
-                extra_prefixes=("C00.", "C01.", "C02.", "C04.", "C15."))
+                extra_prefixes=("C00.", "C01.", "C02.", "C04.", "C15.", "C17."))
 
 
 def c17():
